@@ -331,7 +331,11 @@ def checkDecl (c : Cmp) (old : Decl) : Decl → List Err
     let e7 := missing.flatMap (checkRemoval removed)
     let e8 := checkEnumCases old.cases ncases
     -- back in checkDeclarationUpdatability
-    let e9 := if old.shape == .composite && shapeOf nkind == .composite then checkConformance c old.confs nconfs else []
+    -- `checkConformance` is called for a pair of composite declarations and for a pair of interface
+    -- declarations (the conformances of an interface are inherited by every type conforming to it)
+    let e9 := if (old.shape == .composite && shapeOf nkind == .composite) ||
+                 (old.shape == .interface && shapeOf nkind == .interface)
+              then checkConformance c old.confs nconfs else []
     let e10 : List Err :=
       if old.shape == .attachment && old.kind == .attachment && shapeOf nkind == .attachment then
         match old.base, nbase with
